@@ -18,6 +18,7 @@ from qce_circuit.structure.intrf_circuit_operation import (
     MultiRelationType,
     ChannelIdentifier,
     ICircuitOperation,
+    clear_start_time_cache,
 )
 from qce_circuit.structure.graph_traversal.intrf_graph_structure import (
     IEndpoint,
@@ -277,6 +278,7 @@ class CircuitCompositeOperation(ICircuitCompositeOperation):
         self.repetition_strategy = FixedRepetitionStrategy(repetitions=1)
         for node in self._circuit_graph.get_node_iterator():
             node.operation.apply_modifiers_to_self()
+        clear_start_time_cache()
 
         return self
 
@@ -289,8 +291,9 @@ class CircuitCompositeOperation(ICircuitCompositeOperation):
         result: List[ICircuitOperation] = []
         for node in self._circuit_graph.get_node_iterator():
             # Apply relation-link head (Important for nested composite-operations)
-            if not node.operation.has_relation:
+            if not node.operation.has_relation and node.operation.relation_link is not self.relation_link:
                 node.operation.relation_link = self.relation_link
+                clear_start_time_cache()
             # Extend decomposed operation list
             result.extend(node.operation.decomposed_operations())
         return result
@@ -307,6 +310,7 @@ class CircuitCompositeOperation(ICircuitCompositeOperation):
                 operation=operation,
             )
         self._circuit_graph = flatten_circuit_graph
+        clear_start_time_cache()
         return self
     # endregion
 
